@@ -46,6 +46,7 @@ def explore_impl(funcs, module_path, nin, assumptions, limits):
     xs = input_vars(nin)
     inputs = {ref.input_literal(k): xs[k] for k in range(nin)}
     ex = core.Explorer(assumptions, limits.get("timeout_ms", 5000), limits.get("max_steps", 20000), limits.get("max_paths", 400))
+    ex.deadline = limits.get("deadline")
     paths = ex.explore(lambda o: vm.run_module(funcs, module_path, o, inputs, max_depth=limits.get("max_depth", 12)))
     return paths, ex
 
@@ -53,6 +54,7 @@ def explore_impl(funcs, module_path, nin, assumptions, limits):
 def explore_ref(prog, nin, assumptions, limits):
     xs = input_vars(nin)
     ex = core.Explorer(assumptions, limits.get("timeout_ms", 5000), limits.get("max_steps", 20000), limits.get("max_paths", 400))
+    ex.deadline = limits.get("deadline")
     paths = ex.explore(lambda o: ref.Interp(o, {k: xs[k] for k in range(nin)}, max_depth=limits.get("max_depth", 12)).run_program(prog))
     return paths, ex
 
@@ -84,13 +86,20 @@ def model_values(model, nin):
     return out
 
 
-def check_program(prog, funcs, module_path, nin, assumptions=(), limits=None):
+def check_program(prog, funcs, module_path, nin, assumptions=(), limits=None, keep=None):
     """-> dict(status ok|violation|unknown, violations [...], stats)"""
-    limits = limits or {}
+    limits = dict(limits or {})
     t = time.time()
     st = {"queries": 0}
-    ipaths, iex = explore_impl(funcs, module_path, nin, assumptions, limits)
-    rpaths, rex = explore_ref(prog, nin, assumptions, limits)
+    if limits.get("budget_s"):
+        limits["deadline"] = t + limits["budget_s"]
+    try:
+        ipaths, iex = explore_impl(funcs, module_path, nin, assumptions, limits)
+        rpaths, rex = explore_ref(prog, nin, assumptions, limits)
+    except core.Deadline:
+        return {"status": "unknown", "violations": [], "unknown": 1, "reason": "time budget of %ss used up during exploration" % limits.get("budget_s"), "t": time.time() - t}
+    if keep is not None:
+        keep["impl"], keep["ref"] = ipaths, rpaths
     st["queries"] += iex.queries + rex.queries
     violations, unknown = [], 0
     ibound = [p for p in ipaths if p["status"] == "bound"]
@@ -103,6 +112,9 @@ def check_program(prog, funcs, module_path, nin, assumptions=(), limits=None):
             if pb["status"] == "bound":
                 continue
             if core.syntactically_disjoint(pa, pb):
+                continue
+            if limits.get("deadline") and time.time() > limits["deadline"]:
+                unknown += 1
                 continue
             pairs += 1
             r = core.compare_paths(pa, pb, assumptions, limits.get("timeout_ms", 5000), st)
